@@ -90,6 +90,7 @@ type world struct {
 	socks    [][]*sock // per node, creation order
 	mh       int
 	seq      int
+	opened   int
 	blocked  bool            // some node drops notices: the sentinel cannot be relied upon
 	degraded bool            // a sentinel was lost (reported): timed waits from here on
 	sent     map[string]bool // "node|svc|tonode|tosvc" of every datagram really sent (for the echo oracle)
@@ -200,7 +201,14 @@ func buildWorld(c *Ctx, im *Impl, spec wspec) *world {
 }
 
 func (w *world) open(ni int, svc string, reader, temp bool) (*sock, error) {
-	pc, err := w.nodes[ni].ListenPacket(svc)
+	var pc netceptor.PacketConner
+	var err error
+	if w.opened++; w.opened%3 == 0 {
+		// an advertised socket is a socket like any other as far as notices go
+		pc, err = w.nodes[ni].ListenPacketAndAdvertise(svc, map[string]string{"k": "v"})
+	} else {
+		pc, err = w.nodes[ni].ListenPacket(svc)
+	}
 	if err != nil {
 		return nil, err
 	}
@@ -461,8 +469,56 @@ func (w *world) liveSocks(ni int) []*sock {
 	return out
 }
 
+// slowPing: a Ping whose packet is dropped by policy and whose caller never gives up ends by
+// itself after ten seconds with "timeout" (and tells nobody anything).  It runs beside the
+// world's other operations.
+func (w *world) slowPing() func(im *Impl, cf *CaseFile) {
+	dropper := -1
+	for _, f := range w.spec.fw {
+		if f.svc == "ping" && f.res == "drop" {
+			dropper = f.node
+		}
+	}
+	if dropper < 0 {
+		return func(*Impl, *CaseFile) {}
+	}
+	src := (dropper + 1) % len(w.names)
+	type out struct {
+		from string
+		err  error
+		dt   time.Duration
+	}
+	ch := make(chan out, 1)
+	coqW := w.coqWorld(map[int][]string{src: {placeholderEph}}, nil)
+	go func() {
+		t0 := time.Now()
+		_, from, err := w.nodes[src].Ping(context.Background(), w.names[dropper], byte(w.mh))
+		ch <- out{from, err, time.Since(t0)}
+	}()
+	return func(im *Impl, cf *CaseFile) {
+		var o out
+		select {
+		case o = <-ch:
+		case <-time.After(13 * time.Second):
+			im.Violate(fmt.Sprintf("%s: a Ping to %s, whose firewall drops it, has not returned after more than 13s", w.spec.name, w.names[dropper]), "ping-never-ends", nil)
+			return
+		}
+		obs := "PgSilence"
+		if o.err == nil || o.err.Error() != "timeout" || o.dt < 9*time.Second {
+			im.Violate(fmt.Sprintf("%s: Ping %s -> %s (dropped by policy, caller never gives up) returned (%q, %v) after %s, want \"timeout\" after 10s", w.spec.name, w.names[src], w.names[dropper], o.from, o.err, o.dt.Round(100*time.Millisecond)), "ping-timeout-path", nil)
+			obs = "PgReply"
+		}
+		cf.Add(fmt.Sprintf("CPing %s %s %d %d %s %s %s %s", coqW, w.coqPath(w.path(src, dropper)), w.mh, w.mh, HxS(w.names[src]), HxS(placeholderEph), HxS(w.names[dropper]), obs),
+			fmt.Sprintf("%s ping %s -> %s with a background context, dropped by policy: %v after %s", w.spec.name, w.names[src], w.names[dropper], o.err, o.dt.Round(100*time.Millisecond)))
+		im.Count(w.spec.name+"|ping-ten-second-timeout", true)
+		im.Hist("ping:ten-second-timeout")
+	}
+}
+
 func (w *world) runOps(c *Ctx, im *Impl, cf *CaseFile) {
 	r := c.Rng
+	joinSlow := w.slowPing()
+	defer joinSlow(im, cf)
 	kinds := []string{"toolong", "bound", "unbound", "unbound", "unbound", "closed-before", "waiting", "concurrent", "dropme", "rejme", "tdrop", "trej", "odrop",
 		"ping-svc", "unreach-svc", "unknown-node", "unbound8", "unbound-utf8"}
 	if w.spec.nonUTF8 {
